@@ -1503,8 +1503,11 @@ get_hist_size(struct isal_zstream *stream, uint8_t *start_in, int32_t buf_hist_s
                 if (stream->total_in - state->block_next > history_size) {
                         history_size = (stream->total_in - state->block_next);
                 }
-        } else if (stream->avail_in + buffered_size == 0 &&
-                   (stream->end_of_stream || stream->flush == FULL_FLUSH)) {
+        } else if (stream->avail_in + buffered_size == 0 && stream->end_of_stream) {
+                /* No further input can follow, so no history is needed. A pending
+                 * FULL_FLUSH does not allow this: if the flush cannot complete for
+                 * lack of output space and more input arrives first, that input is
+                 * compressed against the match history already in the hash table */
                 history_size = 0;
         }
         return history_size;
